@@ -109,18 +109,47 @@ def cut_and_restart(h, when, op, path, k):
     return out
 
 
+def stored_duplicate_identities(d):
+    """Identity groups at the STORED placement: two recorded instances of one group carrying the same identity."""
+    z, H = d.z, d.H
+    seen = {}
+    for s in d.srv.children(z.PLACEMENT):
+        for a in d.srv.children(z.path.placement(s)):
+            ha = H.apps.get(a)
+            if ha is None or not ha.get('group'):
+                continue
+            data = d.zkutils.get_default(d.admin, z.path.placement(s, a)) or {}
+            if data.get('identity') is None:
+                continue
+            seen.setdefault((ha['group'], data['identity']), set()).add(a)
+    return {k: sorted(v) for k, v in seen.items() if len(v) > 1}
+
+
 class HeadroomSession:
     """C04 at the store: while the master publishes (init_schedule / reschedule), before each of its writes - the
     state a crash at that point leaves to the successor, which restores recorded placements verbatim - the stored
     placement must respect the affinity limits at every level.  Inline (no fork): only the store is read."""
     armed = False
 
-    def __init__(self, h, ctx):
+    def __init__(self, h, ctx, what='C04'):
         self.h, self.ctx = h, ctx
         self.when = None
+        self.what = what
 
     def _check(self, op, path):
         d = self.h.d
+        if self.what == 'C05':
+            # ... and no identity is recorded for two instances of one group (the successor restores both)
+            self.ctx.count('stored_identities_checked_at_cut')
+            dup = stored_duplicate_identities(d)
+            if dup:
+                (group, ident), names = sorted(dup.items())[0]
+                self.ctx.violation('duplicate-identity:stored-at-cut',
+                                   'a master that stops before %s %s of %s leaves identity %s of group %s recorded for %s' % (
+                                       op, path, self.when, ident, group, names),
+                                   case=dict(ops=d.ops[-40:], cycle=self.h.cycles))
+                d.srv.before_write = None
+            return
         self.ctx.count('stored_affinity_headroom_checked_at_cut')
         over = stored_over_limit(d)
         if over:
